@@ -20,7 +20,7 @@ def build(seed, tier, prop, weights, nops=(8, 16), seed_ops=("m_random_mps", "m_
     spec = {"id": 0, "engine": "E2", "config": cfg, "universe": [], "tags": {}}
     wts = dict(weights)
     n = swarm.randint(*nops)
-    prog, digs, t = e1run.generate_cold(seed, spec, rng, n, wts, seed_ops=seed_ops)
+    prog, digs, t = e1run.generate_cold(seed, spec, rng, n, wts, seed_ops=seed_ops, cache_impl="real")   # iterative solvers: generation with warm real caches
     ts = dict(spec)
     ts["program"] = prog
     world = {"cache_impl": "real", "maxsize": "default", "lapack": True, "fc": {}}
